@@ -30,17 +30,21 @@ type C08Scenario struct {
 	OtherOps  int      `json:"other_ops"` // PUTs by a second controller
 	XReqs     int      `json:"x_reqs"`
 	KeepAlive int      `json:"keep_alive"` // number of keep-alive periods to let pass
+	Bridge    int      `json:"bridge"`     // further accessories behind the bridge (multi-write GET /accessories responses)
 	Sched     []uint16 `json:"sched"`
 }
 
 func genC08(rt *rapid.T) interface{} {
 	sc := &C08Scenario{Seed: rapid.Uint64().Draw(rt, "seed")}
 	sc.NApp = rapid.IntRange(1, 4).Draw(rt, "napp")
-	sc.AppOps = rapid.IntRange(1, 4).Draw(rt, "appops")
+	sc.AppOps = rapid.IntRange(1, tierScale(4)).Draw(rt, "appops")
 	sc.Big = rapid.Bool().Draw(rt, "big")
 	sc.OtherOps = rapid.IntRange(0, 3).Draw(rt, "other")
 	sc.XReqs = rapid.IntRange(0, 3).Draw(rt, "xreqs")
 	sc.KeepAlive = rapid.IntRange(0, 2).Draw(rt, "ka")
+	if rapid.IntRange(0, 2).Draw(rt, "bridge") == 0 {
+		sc.Bridge = rapid.IntRange(1, 14).Draw(rt, "nbridge")
+	}
 	sc.Sched = genSched(rt, 500)
 	return sc
 }
@@ -122,7 +126,11 @@ func runC08(t *testing.T, sci interface{}) *Outcome {
 		w.SeedPairing("ctl-x", xkp)
 		w.SeedPairing("ctl-y", ykp)
 		ta := newTestAccessory("C08")
-		if err := w.NewTransport(hc.Config{Pin: "00102003"}, []*accessory.Accessory{ta.Accessory}); err != nil {
+		all := []*accessory.Accessory{ta.Accessory}
+		for i := 0; i < sc.Bridge; i++ {
+			all = append(all, newTestAccessory(fmt.Sprintf("Extra%d", i)).Accessory)
+		}
+		if err := w.NewTransport(hc.Config{Pin: "00102003"}, all); err != nil {
 			o.Harness = err.Error()
 			return o
 		}
@@ -289,6 +297,26 @@ func runC08(t *testing.T, sci interface{}) *Outcome {
 					violate("partial-frame", "%d trailing bytes on X's socket are not a whole frame", op.Buffered())
 				} else if n, err := segmentWrites(stream, writes[xconn.ID]); err != nil {
 					violate("payload-not-contiguous", "after %d intact payloads: %v", n, err)
+				} else {
+					// message level: the stream is a sequence of whole HTTP responses and EVENT messages
+					rest := stream
+					msgs := 0
+					for len(rest) > 0 {
+						m, used, err := ref.ParseMessage(rest)
+						if err != nil || m == nil {
+							if eventInsideResponse(stream) {
+								violate("event-inside-response", "an EVENT message sits inside an HTTP response on X's connection (after %d whole messages)", msgs)
+							} else if err != nil {
+								violate("stream-not-http", "after %d whole messages the stream on X's connection does not parse: %v", msgs, err)
+							}
+							break
+						}
+						rest = rest[used:]
+						msgs++
+					}
+					if sc.Bridge > 0 {
+						s.Count("probe.multi_write_responses")
+					}
 				}
 			}
 		}
